@@ -1008,10 +1008,10 @@ def gen_cases(ctx):
     th = ctx.thorough
     yield from CORPUS
     n_combo = 6 * 3 * 4 * 4
-    for rep in range(40 if th else 2):          # the full protocol product, several payloads each
+    for rep in range(30 if th else 2):          # the full protocol product, several payloads each
         for k in range(n_combo):
             yield (("atomic", gen_atomic(rng, k)))
-    for _ in range(20000 if th else 1000):
+    for _ in range(15000 if th else 1000):
         yield (("atomic", gen_atomic(rng, None, weird=0.5)))
     for _ in range(8000 if th else 500):
         yield (("wfnprops", {"wfn": gen_wfn(rng, weird=0.4)}))
